@@ -892,6 +892,70 @@ func H_c10_agent_roundtrip() {
 	verif_witness()
 }
 
+// H_c10_agent_life: after any sequence of 1..3 life events over two registered sessions
+// (marked dead through an update, reported dead by id, marked alive again - an operator's
+// "mark alive" or a pivot child that reconnects -, removed) and a restart, exactly the
+// sessions that were last alive and not removed come back.
+func H_c10_agent_life() {
+	d := verifOpenDB()
+	ids := []uint32{0x00a1b2c3, 0x90a1b2c4}
+	var ag [2]*agent.Agent
+	var alive, present [2]bool
+	for i := range ag {
+		a := &agent.Agent{NameID: verifHex8(ids[i]), Active: true, Info: new(agent.AgentInfo)}
+		a.Encryption.AESKey = []byte{1, 2}
+		a.Encryption.AESIv = []byte{3, 4}
+		a.Info.Hostname = "h"
+		verif_assert(d.AgentAdd(a) == nil, "registering a session persists it")
+		ag[i], alive[i], present[i] = a, true, true
+	}
+	n := 1 + nondet_choice("events", verif_bound("agent-life-events", 3, 4))
+	for k := 0; k < n; k++ {
+		i := nondet_choice("which", 2)
+		switch nondet_choice("event", 4) {
+		case 0:
+			ag[i].Active = false
+			ag[i].Reason = "dead"
+			err := d.AgentUpdate(ag[i])
+			verif_assert((err == nil) == present[i], "an update succeeds exactly for a persisted session")
+			alive[i] = false
+		case 1:
+			d.AgentHasDied(int(ids[i]))
+			ag[i].Active = false
+			alive[i] = false
+		case 2:
+			ag[i].Active = true
+			ag[i].Reason = ""
+			err := d.AgentUpdate(ag[i])
+			verif_assert((err == nil) == present[i], "an update succeeds exactly for a persisted session")
+			alive[i] = true
+		case 3:
+			verif_assert(d.AgentRemove(int(ids[i])) == nil, "removing a session succeeds")
+			present[i] = false
+		}
+	}
+	d = verifReopen()
+	all := d.AgentAll()
+	want := 0
+	for i := range ag {
+		found := 0
+		for _, r := range all {
+			if r.NameID == ag[i].NameID {
+				found++
+			}
+		}
+		if alive[i] && present[i] {
+			want++
+			verif_assert(found == 1, "a session that was alive when the teamserver stopped is restored once")
+		} else {
+			verif_assert(found == 0, "a dead or removed session is not restored")
+		}
+	}
+	verif_assert(len(all) == want, "nothing else is restored")
+	verif_assert(verifIdle(d), verifIdleLabel)
+	verif_witness()
+}
+
 // H_c10_links: after any sequence of 1..4 link additions/removals over three agents and a
 // restart, the database yields exactly the parent/child pairs that were added and not removed.
 func H_c10_links() {
